@@ -313,6 +313,7 @@ def run_case(case, tier="quick", seed=0, do_replay=True):
         res["conformance"] = _conformance(case, ctx, mk, paths)
         # soundness obligations of the encoding
         res["den_bases"] = _check_den_bases(ctx, res)
+        res["crosscheck"] = crosscheck_cvc5(ctx, res)
     except core.Unsupported as e:
         res["harness_errors"].append("unsupported: " + str(e))
     except Exception as e:  # noqa: BLE001
@@ -320,6 +321,7 @@ def run_case(case, tier="quick", seed=0, do_replay=True):
                                      + " @ " + traceback.format_exc().splitlines()[-3].strip())
     finally:
         shim.uninstall()
+    res.pop("_xc", None)
     res["solver_s"] = round(ctx.tq, 3)
     res["queries"] = ctx.nq
     res["unknown_queries"] = ctx.n_unknown
@@ -423,6 +425,8 @@ def _decide_equal(case, ctx, res, mk, key, suf, x, y, do_replay):
             res["samples"].append({"case": case.cid, "obligation": _k(key, suf), "smt2_chars": len(smt),
                                    "smt2_head": smt[:600]})
         status, model = ctx.check(goal, timeout=case.query_timeout, kind="obligation", want_model=True)
+        if status == "unsat":
+            _remember_for_crosscheck(ctx, res, goal, key, suf)
     if status == "unsat":
         return "unsat"
     if status == "sat":
@@ -495,6 +499,53 @@ def _decide_sign(case, ctx, res, mk, key, x, claim, do_replay):
         return _handle_sat(case, ctx, res, mk, key, "", model, f"sign claim {claim}", do_replay)
     res["inconclusive"].append({"key": _k(key, ""), "why": "solver unknown/timeout (sign claim)"})
     return "unknown"
+
+
+def _remember_for_crosscheck(ctx, res, goal, key, suf):
+    """reservoir of one discharged obligation per case (chosen by VERIF_SEED) for the second solver"""
+    st = res.setdefault("_xc", {"n": 0, "smt": None, "key": None})
+    st["n"] += 1
+    if ctx.rng.randrange(st["n"]) == 0:
+        st["goal"] = goal
+        st["key"] = _k(key, suf)
+        st["pc"] = list(ctx.pc)
+
+
+def crosscheck_cvc5(ctx, res, limit_s=4):
+    """re-decide one discharged obligation of the case with cvc5 (SMT-LIB text written from the same DAG);
+    a disagreement makes the case inconclusive, no answer within the limit is only recorded"""
+    st = res.pop("_xc", None)
+    if not st or "goal" not in st:
+        return None
+    import shutil
+    import tempfile
+
+    exe = shutil.which("cvc5")
+    if not exe:
+        return {"status": "cvc5 not found"}
+    old_pc = ctx.pc
+    ctx.pc = st["pc"]
+    try:
+        smt = ctx.smt2_of(st["goal"])
+    finally:
+        ctx.pc = old_pc
+    with tempfile.NamedTemporaryFile("w", suffix=".smt2", delete=False) as f:
+        f.write(smt)
+        name = f.name
+    try:
+        p = subprocess.run([exe, f"--tlimit={limit_s * 1000}", name], capture_output=True, text=True, timeout=limit_s + 5)
+        ans = p.stdout.strip().splitlines()[0] if p.stdout.strip() else "no answer"
+        if "(error" in p.stdout or "(error" in p.stderr:
+            ans = "error"
+    except subprocess.TimeoutExpired:
+        ans = "no answer"
+    finally:
+        os.unlink(name)
+    out = {"obligation": st["key"], "z3": "unsat", "cvc5": ans}
+    if ans == "sat":
+        res["inconclusive"].append({"key": st["key"], "why": "z3 says unsat but cvc5 says sat on the same SMT-LIB text"})
+        res["discharged"] = max(0, res["discharged"] - 1)
+    return out
 
 
 def _numeric_witness(ctx, x, y):
@@ -879,6 +930,12 @@ def finish_property(prop, results, tier, seed, encoded, bounds, assumptions, t0,
             "paths": sum(r.get("paths", 0) or 0 for r in results),
             "canaries_killed": sum(1 for r in results if r.get("canary") == "killed"),
             "canaries_run": sum(1 for r in results if r.get("canary")),
+            "cvc5_crosscheck": {
+                "agree_unsat": sum(1 for r in results if (r.get("crosscheck") or {}).get("cvc5") == "unsat"),
+                "no_answer_in_limit": sum(1 for r in results if (r.get("crosscheck") or {}).get("cvc5") in ("no answer", "unknown", "error")),
+                "disagree": sum(1 for r in results if (r.get("crosscheck") or {}).get("cvc5") == "sat"),
+                "note": "one seed-chosen discharged obligation per case re-decided by the cvc5 1.0 binary from SMT-LIB text, 4 s limit",
+            },
             "cases": case_rows,
             "samples": samples,
             "checker_cmd": f"{PY} -m checks.run {prop} --tier {tier}",
